@@ -292,6 +292,21 @@ def counter2value_summary(w, st, node, callee, args):
 SUMMARIES = {"_log_counter": log_counter_summary, "_counter2value": counter2value_summary}
 
 
+def _summary_units(F):
+    """Summarised kernels and their kernel callees (the random-token source of the probabilistic increment) stay units."""
+    out = set(SUMMARIES)
+    for name in SUMMARIES:
+        for mod in F.model.modules.values():
+            f = mod.funcs.get(name)
+            if f is not None:
+                out |= {c.callee.name for c in F.calls_from(f) if c.callee.is_kernel}
+    return out
+
+
+from .facts import UNIT_RESOLVERS
+UNIT_RESOLVERS.append(_summary_units)
+
+
 def log_counter_invariants():
     def upper(w, entry_env, env):
         c0, m, c = entry_env.get("counter"), entry_env.get("uint_maxval"), env.get("counter")
